@@ -11,11 +11,14 @@ for d in sorted(glob.glob(os.path.join(V, 'seeded', '*', 'meta.json'))):
     outs = []
     for pid, c in r.get('checks', {}).items():
         obs = [l.split(' refuted')[0].replace('obligation ', '') for l in c['lines'] if l.startswith('obligation')]
-        verdict = {0: 'MISSED (exit 0)', 1: 'caught', 2: 'undecided (exit 2)'}.get(c['exit'], str(c['exit']))
+        if pid in m.get('breaks', m['properties']):
+            verdict = {0: 'MISSED (exit 0)', 1: 'caught', 2: 'undecided (exit 2)'}.get(c['exit'], str(c['exit']))
+        else:  # a neighbouring property that shares code with the change but is not broken by it
+            verdict = {0: 'quiet, as it should be (not broken)', 1: 'also flags it', 2: 'undecided (exit 2), no alarm'}.get(c['exit'], str(c['exit']))
         outs.append(f"{pid}: {verdict}" + (f" — {', '.join(obs[:3])}" if obs else '') + (f" — {c['undecided'][0][21:140]}" if c['exit'] == 2 and c['undecided'] else ''))
     if r.get('applied') is False:
         outs = ['patch no longer applies to /repo HEAD (the code it changed was repaired); see the port with the suffix b']
-    rows.append((m['id'], ', '.join(m['properties']), m['needs'], 'yes' if conf else ('no' if conf is False else '?'), '<br>'.join(outs)))
+    rows.append((m['id'], ', '.join(m.get('breaks', m['properties'])), m['needs'], 'yes' if conf else ('no' if conf is False else '?'), '<br>'.join(outs)))
 with open(os.path.join(V, 'seeded', 'INDEX.md'), 'w') as f:
     f.write('# Seeded property-breaking changes\n\nEach directory holds `patch.diff`, the demonstration, the author\'s notes, `meta.json` (what it needs to manifest, my confirmation run) and `result.json` (what the registered checks said, quick tier, on a scratch copy with the patch applied).\n\n')
     f.write('| id | breaks | needs | confirmed (suite passes, demo fails with / passes without) | registered checks |\n|---|---|---|---|---|\n')
